@@ -4,9 +4,11 @@ import KcpVerif.Lemmas.KcpLive
 import KcpVerif.Lemmas.KcpState
 import KcpVerif.Lemmas.KcpTimer
 import KcpVerif.Lemmas.KcpMove
+import KcpVerif.Lemmas.KcpHead
 import KcpVerif.Lemmas.SysCleanRun
 import KcpVerif.Lemmas.SysProgress
 import KcpVerif.Lemmas.SysProgress2
+import KcpVerif.Lemmas.SysDrainCex
 /-! C02 — eventual delivery: a healed network always drains the backlog. -/
 namespace KcpVerif.Props
 open KcpVerif KcpVerif.Gen KcpVerif.Kcp KcpVerif.Live
@@ -234,33 +236,122 @@ theorem C02_ack_owed_input_flushes (k : Kcp) (data : Bytes) (regular ackNoDelay 
 
 /-! ### `una_cumulative` -/
 
-/-- `parse_una(u)` + `shrink_buf`: exactly the leading segments with `itimediff u sn > 0` are
-removed, the new head (if any) is not covered by `u`, and `snd_una` becomes the head's `sn` or
-`snd_nxt`.  Every valid incoming segment of ANY command does this first (`inPre` is the common
-prologue of `inStep`), so a lost final ACK is repaired by the `una` of any later segment. -/
+/-- `parse_una(u)` + `shrink_buf`: the leading segments with `itimediff u sn > 0` are removed (the
+first remaining one is not covered by `u`), then `shrink_buf` also removes every leading segment that
+was already acknowledged individually (`acked`, the lazy-delete flag of `parse_ack`); the new head
+(if any) is therefore NOT flagged and `snd_una` becomes its `sn`, or `snd_nxt` for an empty buffer.
+Every valid incoming segment of ANY command does this first (`inPre` is the common prologue of
+`inStep`), so a lost final ACK is repaired by the `una` of any later segment.  Individually
+acknowledged heads are covered too: an ACK for the head's own `sn` (inside `[snd_una, snd_nxt)`)
+followed by the second `shrink_buf` of the ACK path removes the head — and every flagged segment
+behind it — at once, and `snd_una` advances to the next live segment (or `snd_nxt`).  Flagged
+segments stay in `snd_buf` only while an un-acknowledged segment is in front of them. -/
 theorem C02_una_cumulative (k : Kcp) (u : U32) :
-    (shrinkBuf (parseUna k u).1).snd_buf = k.snd_buf.dropWhile (fun s => decide (itimediff u s.sn > 0)) ∧
+    (shrinkBuf (parseUna k u).1).snd_buf =
+      (k.snd_buf.dropWhile (fun s => decide (itimediff u s.sn > 0))).dropWhile (fun s => s.acked) ∧
+    (match k.snd_buf.dropWhile (fun s => decide (itimediff u s.sn > 0)) with
+      | s :: _ => ¬ itimediff u s.sn > 0
+      | [] => True) ∧
     (match (shrinkBuf (parseUna k u).1).snd_buf with
-      | s :: _ => (shrinkBuf (parseUna k u).1).snd_una = s.sn ∧ ¬ itimediff u s.sn > 0
+      | s :: _ => s.acked = false ∧ (shrinkBuf (parseUna k u).1).snd_una = s.sn
       | [] => (shrinkBuf (parseUna k u).1).snd_una = k.snd_nxt) ∧
-    (∀ regular wnd, (inPre regular wnd u k).snd_buf = k.snd_buf.dropWhile (fun s => decide (itimediff u s.sn > 0))) := by
-  have hb : (shrinkBuf (parseUna k u).1).snd_buf = k.snd_buf.dropWhile (fun s => decide (itimediff u s.sn > 0)) := by
-    rw [shrinkBuf_eq]; unfold parseUna; simp only []; exact drop_unaCount u k.snd_buf
-  refine ⟨hb, ?_, ?_⟩
-  · rw [shrinkBuf_eq]
-    unfold parseUna
-    simp only [drop_unaCount]
-    cases hd : k.snd_buf.dropWhile (fun s => decide (itimediff u s.sn > 0)) with
-    | nil => rfl
+    (∀ regular wnd, (inPre regular wnd u k).snd_buf =
+      (k.snd_buf.dropWhile (fun s => decide (itimediff u s.sn > 0))).dropWhile (fun s => s.acked)) ∧
+    (∀ s rest, k.snd_buf = s :: rest → itimediff s.sn k.snd_una ≥ 0 → itimediff s.sn k.snd_nxt < 0 →
+      (shrinkBuf (parseAck k s.sn)).snd_buf = rest.dropWhile (fun s => s.acked) ∧
+      (match rest.dropWhile (fun s => s.acked) with
+        | t :: _ => t.acked = false ∧ (shrinkBuf (parseAck k s.sn)).snd_una = t.sn
+        | [] => (shrinkBuf (parseAck k s.sn)).snd_una = k.snd_nxt)) := by
+  have hb : (shrinkBuf (parseUna k u).1).snd_buf =
+      (k.snd_buf.dropWhile (fun s => decide (itimediff u s.sn > 0))).dropWhile (fun s => s.acked) := by
+    rw [shrinkBuf_eq]; unfold parseUna; simp only []
+    rw [drop_unaCount, dropAcked_eq_dropWhile]
+  refine ⟨hb, ?_, ?_, ?_, ?_⟩
+  · cases hd : k.snd_buf.dropWhile (fun s => decide (itimediff u s.sn > 0)) with
+    | nil => trivial
     | cons s rest =>
-      refine ⟨rfl, ?_⟩
       have := List.head?_dropWhile_not (fun s : Seg => decide (itimediff u s.sn > 0)) k.snd_buf
       rw [hd] at this
       simpa using this
+  · have hl := shrinkBuf_headLive (parseUna k u).1
+    unfold HeadLive at hl
+    have hn : (shrinkBuf (parseUna k u).1).snd_nxt = k.snd_nxt := by rw [shrinkBuf_eq]; rfl
+    rw [hn] at hl
+    exact hl
   · intro regular wnd
     unfold inPre
-    rw [shrinkBuf_eq]; unfold parseUna; simp only [drop_unaCount]
+    rw [shrinkBuf_eq]; unfold parseUna; simp only []
+    rw [drop_unaCount, dropAcked_eq_dropWhile]
     cases regular <;> rfl
+  · intro s rest hk h1 h2
+    have hsb : (shrinkBuf (parseAck k s.sn)).snd_buf = rest.dropWhile (fun s => s.acked) := by
+      rw [parseAck_head_leaves k s rest hk h1 h2, dropAcked_eq_dropWhile]
+    refine ⟨hsb, ?_⟩
+    have hl := shrinkBuf_headLive (parseAck k s.sn)
+    unfold HeadLive at hl
+    rw [hsb] at hl
+    have hn : (shrinkBuf (parseAck k s.sn)).snd_nxt = k.snd_nxt := by
+      obtain ⟨b, hf⟩ := parseAck_frame k s.sn
+      rw [shrinkBuf_eq, hf]
+    rw [hn] at hl
+    exact hl
+
+/-- The theorem that excludes the acked-head wedge.  After `shrink_buf` — in any state — the head
+of `snd_buf`, if any, is NOT flagged `acked` and `snd_una` is its `sn` (`snd_nxt` for an empty
+buffer): `HeadLive` (Lemmas/KcpLive.lean).  `shrink_buf` runs in the prologue of every step of the
+parse loop and again after `parse_ack`, so EVERY valid segment of ANY command leaves the
+connection `HeadLive`, the rest of the parse loop keeps it, and so does the remainder of `Input`
+up to its closing flush (`inK2`: RTT sample and cwnd update).  An individually acknowledged segment
+can therefore never again be the head that pins `snd_una`. -/
+theorem C02_acked_head_leaves (k : Kcp) :
+    (shrinkBuf k).snd_buf = k.snd_buf.dropWhile (fun s => s.acked) ∧
+    (match (shrinkBuf k).snd_buf with
+      | s :: _ => s.acked = false ∧ (shrinkBuf k).snd_una = s.sn
+      | [] => (shrinkBuf k).snd_una = k.snd_nxt) ∧
+    (∀ regular conv cmd frg wnd ts sn una payload (st : InLoop),
+      HeadLive (inStep regular conv cmd frg wnd ts sn una payload st).k) ∧
+    (∀ regular fuel data (st : InLoop), HeadLive st.k → HeadLive (inputLoop regular fuel data st).k) ∧
+    (∀ data regular now, HeadLive k → HeadLive (inK2 k data regular now)) := by
+  refine ⟨by rw [shrinkBuf_eq, dropAcked_eq_dropWhile], ?_, inStep_headLive, inputLoop_headLive, ?_⟩
+  · have hl := shrinkBuf_headLive k
+    unfold HeadLive at hl
+    have hn : (shrinkBuf k).snd_nxt = k.snd_nxt := by rw [shrinkBuf_eq]
+    rw [hn] at hl
+    exact hl
+  · intro data regular now h
+    have hst : HeadLive (inSt k data regular).k := inputLoop_headLive regular _ data { k := k } h
+    have hcw : ∀ a old, (cwndOnAck a old).snd_buf = a.snd_buf ∧ (cwndOnAck a old).snd_una = a.snd_una ∧
+        (cwndOnAck a old).snd_nxt = a.snd_nxt := by
+      intro a old; unfold cwndOnAck; simp only []; repeat' split
+      all_goals exact ⟨rfl, rfl, rfl⟩
+    have hua : ∀ a rtt, (updateAck a rtt).snd_buf = a.snd_buf ∧ (updateAck a rtt).snd_una = a.snd_una ∧
+        (updateAck a rtt).snd_nxt = a.snd_nxt := by
+      intro a rtt; unfold updateAck smoothRtt; simp only []; repeat' split
+      all_goals exact ⟨rfl, rfl, rfl⟩
+    unfold inK2
+    refine HeadLive.of_same (hcw _ _).1 (hcw _ _).2.1 (hcw _ _).2.2 ?_
+    split
+    · exact HeadLive.of_same (hua _ _).1 (hua _ _).2.1 (hua _ _).2.2 hst
+    · exact hst
+
+/-- `HeadLive` as an invariant of reachable states: together with "no queued segment carries the
+acked flag" (`LiveInv`, Lemmas/KcpHead.lean) it is kept by every operation with arbitrary arguments —
+also by the flushes (admission into an empty buffer makes a fresh, un-flagged segment numbered
+`snd_nxt = snd_una` the head; phase 5 never touches `acked` or `sn`) — and holds in every state
+reachable from `NewKCP`: `snd_una` is ALWAYS the `sn` of a live head (or `snd_nxt`). -/
+theorem C02_acked_head_leaves_reachable (conv : U32) (ops : List Op) (k : Kcp) (op : Op) :
+    (LiveInv k → LiveInv (step k op)) ∧ LiveInv (Kcp.new conv) ∧ HeadLive (run (Kcp.new conv) ops) :=
+  ⟨step_live k op, new_live conv, (run_live _ ops (new_live conv)).1⟩
+
+/-- the wedge scenario: sn 5 (head) and sn 6 are outstanding, sn 6 was acknowledged first (flagged,
+kept behind the live head); the reordered ACK for sn 5 now removes BOTH and `snd_una` reaches
+`snd_nxt = 7` (before the repair the flagged segment 6 stayed at the head and pinned `snd_una`) -/
+example :
+    (shrinkBuf (parseAck
+      { Kcp.new 1 with snd_una := 5, snd_nxt := 7, snd_buf := [{ sn := 5 }, { sn := 6, acked := true }] } 5)).snd_buf = [] ∧
+    (shrinkBuf (parseAck
+      { Kcp.new 1 with snd_una := 5, snd_nxt := 7, snd_buf := [{ sn := 5 }, { sn := 6, acked := true }] } 5)).snd_una = 7 := by
+  decide
 
 /-! ### `heap_top_advances` -/
 
@@ -596,5 +687,69 @@ theorem C02_drain_clean (A B : Kcp) (D t0 : Nat) (ndA ndB : Bool) (hinit : Clean
     (clean_init A B D t0 ndA ndB hinit) (win_init A B D t0 ndA ndB hinit hwin) hr1
   rw [SysC.run_append] at ht1 ⊢
   exact clean_drain_ever hc hw evs2 hr2 hq hns (by rw [run_D]; exact ht1)
+
+/-! ### the drain statement from an arbitrary consistent state was FALSE: the acked-head wedge
+
+Found by the attempt to prove `C02_drain_full`; confirmed on the real code
+(`notes/C02_wedge_test.go.txt`).  Before the repair, `parse_ack` only FLAGGED a segment
+(`acked := true`), it left the send buffer when a later `una` passed it, and `shrink_buf` put
+`snd_una` on the head of the buffer even if the head was flagged.  If B acknowledges a segment it
+could not yet deliver (receive queue full: the ACK carries `una = sn` and `wnd = 0`), the only
+carriers of the `una` that releases it are B's later frames — and when there is no later data, that is
+the single window update sent after the reader drained the queue.  Lose it, and let a stale frame (a
+reordered or duplicated earlier datagram with `wnd > 0`) disarm A's zero-window probe: both sides are
+silent for ever, A's `WaitSnd` stays positive, and — when the flagged segments fill
+`min(snd_wnd, rmt_wnd)` — nothing written afterwards is ever put on the wire.
+
+Everything in this section is about the PRE-REPAIR `Input` (`Old.input`, `Old.step`, `Old.run` of
+Model/SysOld.lean: a verbatim copy of the definitions at the time the defect was found), so that it
+stays valid when the model follows the repaired code.  `SysC.wedgeState` is reached by the fault
+history `wedge1 … wedge3` (one reordering, one loss; `rcv_wnd = 1`, `D = 0`). -/
+
+/-- the state after the fault history is stuck -/
+theorem C02_wedge_stuck_prerepair : SysC.Stuck SysC.wedgeState := by
+  refine ⟨by decide, by decide, ⟨by decide, by decide, by decide, by decide, by decide, by decide⟩,
+    ⟨by decide, by decide, by decide, by decide, by decide, by decide⟩, by decide, by decide⟩
+
+/-- **the wedge (pre-repair)**: from `wedgeState`, for EVERY continuation on the perfect network — any
+schedule, any further `Send`s — A's send buffer still holds the flagged segment 2 (`WaitSnd ≥ 1`),
+nothing is ever admitted (`snd_nxt = 3`), no datagram is in flight and the reader has received nothing
+beyond the three bytes it already had -/
+theorem C02_wedge_forever_prerepair (evs : List Sys.Ev) :
+    (Old.run SysC.wedgeState evs).A.snd_buf.map (fun x => (x.sn, x.acked)) = [(2, true)] ∧
+    1 ≤ (Old.run SysC.wedgeState evs).A.waitSnd ∧ (Old.run SysC.wedgeState evs).A.snd_nxt = 3 ∧
+    (Old.run SysC.wedgeState evs).ab = [] ∧ (Old.run SysC.wedgeState evs).ba = [] ∧
+    (Old.run SysC.wedgeState evs).got = [0, 1, 2] := by
+  obtain ⟨h1, h2, h3, h4⟩ := SysC.stuck_run evs _ C02_wedge_stuck_prerepair
+  refine ⟨by rw [h2]; decide, ?_, by rw [h4]; decide, h1.ab, h1.ba, by rw [h3]; decide⟩
+  unfold waitSnd
+  rw [h2]
+  have : SysC.wedgeState.A.snd_buf.length = 1 := by decide
+  omega
+
+/-- `C02_drain_full` with the pre-repair `Input` -/
+def C02_drain_full_prerepair : Prop :=
+  ∀ (s : Sys.State), C02_EndpointOk s.A → C02_EndpointOk s.B → s.A.conv = s.B.conv →
+    (∀ x ∈ s.A.snd_queue ++ s.A.snd_buf, x.frg.toNat < s.B.rcv_wnd.toNat) →
+    ∃ T : Nat, ∀ evs : List Sys.Ev, (∀ ev ∈ evs, ∀ b, ev ≠ .send b) →
+      s.now + T ≤ (Old.run s evs).now → (Old.run s evs).A.waitSnd = 0
+
+/-- its hypotheses hold in the wedge state … -/
+theorem C02_wedge_endpoints_ok : C02_EndpointOk SysC.wedgeState.A ∧ C02_EndpointOk SysC.wedgeState.B ∧
+    SysC.wedgeState.A.conv = SysC.wedgeState.B.conv ∧
+    (∀ x ∈ SysC.wedgeState.A.snd_queue ++ SysC.wedgeState.A.snd_buf, x.frg.toNat < SysC.wedgeState.B.rcv_wnd.toNat) := by
+  unfold C02_EndpointOk TimerInv SegTimer
+  decide
+
+/-- … so **the drain statement was false before the repair**: no bound `T` works, because the clock of
+the stuck system runs on (`SysC.stuck_rounds_now`) while `WaitSnd` stays 1 -/
+theorem C02_drain_refuted_prerepair : ¬ C02_drain_full_prerepair := by
+  intro h
+  obtain ⟨a, b, c, d⟩ := C02_wedge_endpoints_ok
+  obtain ⟨T, hT⟩ := h SysC.wedgeState a b c d
+  have hnow := SysC.stuck_rounds_now T SysC.wedgeState C02_wedge_stuck_prerepair (by decide) (by decide)
+  have := hT (SysC.stuckRounds T) (SysC.stuckRounds_nosend T) (by rw [hnow]; exact Nat.le_refl _)
+  have := (C02_wedge_forever_prerepair (SysC.stuckRounds T)).2.1
+  omega
 
 end KcpVerif.Props
